@@ -108,7 +108,8 @@ def cell_from_recip_metric(m, c):
     al = math.degrees(math.acos(G[1, 2] / b / cc))
     be = math.degrees(math.acos(G[0, 2] / a / cc))
     ga = math.degrees(math.acos(G[0, 1] / a / b))
-    return [a, b, cc, al, be, ga]
+    import lattice_lib as _L
+    return _L.snap_cell([a, b, cc, al, be, ga])
 
 
 def bounds(K, Kmin, c, tight=0):
